@@ -27,7 +27,7 @@ ASSUMPTIONS = [
     "amounts <= 11 decimals; histories valid by construction (no over-spend)",
 ]
 
-CFG = gen.GenCfg(min_steps=4, max_steps=18, force_type_cycle=True)
+CFG = gen.GenCfg(min_steps=4, max_steps=18, force_type_cycle=True, shared_uid_prob=0.15)
 REL = Fraction(1, 10**20)
 
 
